@@ -349,6 +349,13 @@ private:
 };
 
 
+/// Solve result carried by an exception: that of an mp::Error raised
+/// via MP_RAISE_WITH_CODE / MP_INFEAS, otherwise -1 (generic failure)
+inline int SolveResultOf(const std::exception& exc) {
+  auto perr = dynamic_cast<const mp::Error*>(&exc);
+  return (perr && perr->exit_code()!=EXIT_FAILURE) ? perr->exit_code() : -1;
+}
+
 /// Interface for an array of constraints of certain type
 class BasicConstraintKeeper {
 public:
@@ -720,7 +727,8 @@ public:
       static_cast<Converter&>(cvt).PropagateResult(
             GetConstraint(i), lb, ub, ctx);
     } catch (const std::exception& exc) {
-      MP_RAISE(Converter::GetTypeName() +
+      MP_RAISE_WITH_CODE(SolveResultOf(exc),   // keep MP_INFEAS etc.
+                         Converter::GetTypeName() +
                              std::string(": propagating result for constraint ") +
                              std::to_string(i) + " of type '" +
                              Constraint::GetTypeName() +
@@ -745,7 +753,8 @@ public:
     try {
       return ConvertAllFrom(i_cvt_last_);
     } catch (const std::exception& exc) {
-      MP_RAISE(Converter::GetTypeName() + std::string(": ")
+      MP_RAISE_WITH_CODE(SolveResultOf(exc),   // keep MP_INFEAS etc.
+                         Converter::GetTypeName() + std::string(": ")
                              + exc.what());
     }
     return false;
